@@ -12,8 +12,7 @@
 // (DESIGN.md C05): data y_b = r_b * d_b^2 with d_b = (P lambda)_b + a_b, so that the quotients the
 // implementation forms are exactly representable; TLC recomputes d from the logged P, lambda, a and rejects
 // the Instance line if the instance is not exact.
-#include "vh_explicit_matrix.h"
-#include "c05_common.h"
+#include "c05_seam.h"
 #include "stir/recon_buildblock/PoissonLogLikelihoodWithLinearModelForMeanAndProjData.h"
 #include "stir/recon_buildblock/QuadraticPrior.h"
 #include "stir/recon_buildblock/BinNormalisationFromProjData.h"
@@ -40,190 +39,7 @@ public:
   bool get_use_tofsens() const { return this->use_tofsens; }
 };
 
-// ---------------------------------------------------------------- systems
-struct Sys {
-  vh::TinySystem t;
-  std::vector<Bin> bins;
-  std::vector<std::array<int, 3>> vox;
-  bool tof;
-};
-
-static Sys make_sys(bool tof) {
-  Sys s;
-  s.tof = tof;
-  s.t = vh::make_tiny_system(8, 3, 3, tof ? 3 : 0, 2, 2, 3);
-  s.bins = vh::xm_all_bins(*s.t.proj_data_info);
-  s.vox = vh::xm_voxels(*s.t.image);
-  return s;
-}
-
-struct Matrix {
-  shared_ptr<vh::ExplicitMatrixData> data;
-  std::vector<std::vector<std::pair<int, int>>> rows;  // per bin: (voxel index 1-based, weight)
-  long id;
-  vh::Json sysjson;  // the System line describing it
-};
-static long next_id = 0;
-static long last_emitted_sys = 0;
-// the trace specification holds one system at a time: (re-)emit the System line whenever the matrix changes
-static void emit_system(vh::Trace& tr, const Matrix& m) {
-  if (last_emitted_sys == m.id) return;
-  tr.emit(m.sysjson);
-  last_emitted_sys = m.id;
-}
-
-// rows: up to max_entries distinct voxels with weights 1..max_w; some rows empty
-static Matrix make_matrix(vh::Trace&, const Sys& s, vh::Rng& rng, int max_entries, int max_w, bool allow_empty) {
-  Matrix m;
-  m.data.reset(new vh::ExplicitMatrixData);
-  m.id = ++next_id;
-  const int nv = (int)s.vox.size();
-  for (const Bin& b : s.bins) {
-    int n = rng.range(allow_empty ? 0 : 1, max_entries);
-    if (allow_empty && n > 0 && rng.range(0, 9) == 0) n = 0;
-    std::set<int> used;
-    std::vector<std::pair<int, int>> row;
-    std::vector<vh::XmElem> elems;
-    for (int i = 0; i < n; ++i) {
-      int v = rng.range(1, nv);
-      if (used.count(v)) continue;
-      used.insert(v);
-      int w = rng.range(1, max_w);
-      row.push_back({ v, w });
-      elems.push_back(vh::XmElem{ s.vox[v - 1][0], s.vox[v - 1][1], s.vox[v - 1][2], (float)w });
-    }
-    m.data->set_row(b, elems);
-    m.rows.push_back(row);
-  }
-  // the System line: bins, rows (bin-major) and columns (voxel-major; TLC checks that both describe the same matrix)
-  m.sysjson = vh::xm_system_json(m.id, s.t, *m.data);
-  return m;
-}
-
-// ---------------------------------------------------------------- option sets and instances
-struct Opts {
-  bool tofsens = false, additive = false, zero = false, uss = false, prior = false, supplied = false, cache = true, wrapnorm = true;
-  int norm = 0;       // 0 trivial, 1 from proj data, 2 chained (proj data x proj data), 3 harness efficiencies, 4 chained (proj data x efficiencies)
-  bool tofnorm = false;
-  int maxseg = -1;    // as given to the objective function (-1: all)
-  int N = 1;
-  int fill = 0;       // byte the storage of the objective function is filled with before construction
-  int family = 0;     // 0 general, 1 power-of-two means (additive chosen accordingly), 2 power-of-two means without additive term
-  bool approx = false; // power-of-two families: no zero counts, so that the approximate Hessian (which divides by y) can be requested
-};
-static const char* norm_names[] = { "trivial", "projdata", "chained", "eff", "chained_eff" };
-
-struct Inst {
-  Opts o;
-  std::vector<int> lam, x, y, a, e;  // e: exponent of the efficiency (n = 2^e), per bin
-  std::vector<int> e1;               // chained: first factor exponent (second = e - e1)
-};
-
-static Inst make_inst(const Sys& s, const Matrix& m, vh::Rng& rng, const Opts& o) {
-  Inst in;
-  in.o = o;
-  const int nv = (int)s.vox.size(), nb = (int)s.bins.size();
-  const bool p2 = o.family != 0;
-  for (int v = 0; v < nv; ++v) {
-    // "any non-negative image": the general family has voxels with value 0 (a bin with mean 0 then has no counts)
-    in.lam.push_back(p2 ? (o.family == 2 ? (1 << rng.range(0, 1)) : rng.range(1, 2)) : rng.range(0, 4));
-    in.x.push_back(rng.range(0, 3));
-  }
-  for (int b = 0; b < nb; ++b) {
-    int pl = 0;
-    for (auto& e : m.rows[b]) pl += e.second * in.lam[e.first - 1];
-    int a = 0;
-    if (o.additive) {
-      if (o.family == 1) { int p = 1; while (p < pl) p *= 2; a = pl == 0 ? (1 << rng.range(0, 2)) : p - pl; }
-      else a = rng.range(0, 4);
-    }
-    const int d = pl + a;
-    const int r = p2 ? (o.approx ? rng.range(1, 2) : rng.range(0, 2)) : rng.range(0, 3);
-    in.a.push_back(a);
-    in.y.push_back(r * d * d);
-    in.e.push_back(0);
-    in.e1.push_back(0);
-  }
-  // efficiencies n = 2^e, e in -2..0 (power-of-two family: -1..0); TOF-independent unless o.tofnorm
-  if (o.norm != 0) {
-    std::map<std::array<int, 4>, std::pair<int, int>> byspatial;
-    for (int b = 0; b < nb; ++b) {
-      const Bin& bin = s.bins[b];
-      std::array<int, 4> k{ { bin.segment_num(), bin.view_num(), bin.axial_pos_num(), bin.tangential_pos_num() } };
-      std::pair<int, int> ee;
-      if (!o.tofnorm && byspatial.count(k)) ee = byspatial[k];
-      else {
-        const bool chain = o.norm == 2 || o.norm == 4;
-        int f1 = rng.range(-1, 0), f2 = chain ? rng.range(-1, 0) : 0;
-        if (!chain && !p2) f1 = rng.range(-2, 0);
-        if (chain && p2) { if (rng.coin()) f1 = 0; else f2 = 0; }
-        ee = { f1, f2 };
-        byspatial[k] = ee;
-      }
-      in.e1[b] = ee.first;
-      in.e[b] = ee.first + ee.second;
-    }
-  }
-  return in;
-}
-
-static shared_ptr<ProjDataInMemory> make_pd(const Sys& s, const shared_ptr<const ProjDataInfo>& pdi, const std::vector<float>& vals, bool spatial_only) {
-  shared_ptr<ProjDataInMemory> pd(new ProjDataInMemory(s.t.exam_info, pdi));
-  pd->fill(0.F);
-  for (size_t b = 0; b < s.bins.size(); ++b) {
-    Bin bin = s.bins[b];
-    if (spatial_only) { if (bin.timing_pos_num() != 0) continue; }
-    bin.set_bin_value(vals[b]);
-    pd->set_bin_value(bin);
-  }
-  return pd;
-}
-
-static shared_ptr<BinNormalisation> make_norm(const Sys& s, const Inst& in, shared_ptr<RecNorm>* rec) {
-  const Opts& o = in.o;
-  const size_t nb = s.bins.size();
-  shared_ptr<BinNormalisation> n;
-  // normalisation factors (what apply() multiplies with) are 1/efficiency = 2^-e
-  auto pdnorm = [&](const std::vector<int>& ex) {
-    std::vector<float> f(nb);
-    for (size_t b = 0; b < nb; ++b) f[b] = std::ldexp(1.F, -ex[b]);
-    shared_ptr<const ProjDataInfo> pdi = s.t.proj_data_info;
-    const bool nontof = s.tof && !o.tofnorm;
-    if (nontof) pdi = s.t.proj_data_info->create_non_tof_clone();
-    shared_ptr<ProjData> pd = make_pd(s, pdi, f, nontof);
-    return shared_ptr<BinNormalisation>(new BinNormalisationFromProjData(pd));
-  };
-  auto effnorm = [&](const std::vector<int>& ex) {
-    shared_ptr<EffNorm> en(new EffNorm);
-    en->tof_dependent = s.tof && o.tofnorm;
-    for (size_t b = 0; b < nb; ++b) {
-      BinKey k = bin_key(s.bins[b]);
-      if (!en->tof_dependent) k[4] = 0;
-      en->eff[k] = std::ldexp(1.F, ex[b]);
-    }
-    return shared_ptr<BinNormalisation>(en);
-  };
-  std::vector<int> e2(nb);
-  for (size_t b = 0; b < nb; ++b) e2[b] = in.e[b] - in.e1[b];
-  switch (o.norm) {
-  case 0: n.reset(new TrivialBinNormalisation); break;
-  case 1: n = pdnorm(in.e); break;
-  case 2: n.reset(new ChainedBinNormalisation(pdnorm(in.e1), pdnorm(e2))); break;
-  case 3: n = effnorm(in.e); break;
-  default: n.reset(new ChainedBinNormalisation(pdnorm(in.e1), effnorm(e2))); break;
-  }
-  if (o.wrapnorm) { rec->reset(new RecNorm(n)); return *rec; }
-  rec->reset();
-  return n;
-}
-
 // ---------------------------------------------------------------- recording
-static shared_ptr<Img> image_from(const Sys& s, const std::vector<int>& v) {
-  shared_ptr<Img> im(s.t.image->get_empty_copy());
-  size_t i = 0;
-  for (auto it = im->begin_all(); it != im->end_all(); ++it, ++i) *it = (float)v[i];
-  return im;
-}
 
 static std::vector<Req> all_requests(const Opts& o, vh::Rng& rng, bool with_addsens, bool with_approx) {
   std::vector<Req> r;
@@ -411,12 +227,20 @@ static Opts random_opts(const Sys& s, vh::Rng& rng, long i) {
   return o;
 }
 
+// the other C05 drivers (own namespaces), compiled into this translation unit
+#include "c05_realproj.cxx"
+#include "c05_listmode.cxx"
+#include "c05_patlak.cxx"
+
 int main(int argc, char** argv) {
   if (argc < 5) { fprintf(stderr, "usage: c05_poissonll opts|orders <out.ndjson> <scratch-dir> <count>\n"); return 2; }
   vh::quiet();
   vh::install_terminate();
   install_signal_handlers();
   const std::string mode = argv[1], scratch = argv[3];
+  if (mode == "real") return c05real::entry(argc, argv);
+  if (mode == "lm") return c05lm::entry(argc, argv);
+  if (mode == "patlak") return c05patlak::entry(argc, argv);
   const long count = atol(argv[4]);
   vh::Trace tr(argv[2]);
   vh::Rng rng(vh::seed_from_env());
